@@ -190,6 +190,32 @@ def stepDet (variant : String) (ws : List String) (impl : String) : String :=
         | .ok c' => if implR == some c' then "ok" else "DIFF model=ok"
         | .error _ => if impl == "R=err" then "ok" else "DIFF model=err"
 
+/-! ### C19: engine cut lines -/
+
+/-- does the checkpoint hold a run with a non-empty Kleene capture? -/
+def hasKleeneRun (c : EngineCkpt) : Bool :=
+  c.saseStates.any fun kv =>
+    let runs := kv.2.activeRuns ++ (kv.2.partitionedRuns.map (·.2)).flatten
+    runs.any fun r => match r.kleeneEvents with | some (_ :: _) => true | _ => false
+
+/-- `cut k n tags=… subms=b <engine checkpoint>` => `same` | `diff at=… exp=[…] got=[…]` | `unreadable …` | `panic`.
+The judge is the property itself (outputs after the cut equal); a failing cut is classified under
+the one listed finding iff the program has a self-referencing Kleene predicate (tag from the
+generator) and the checkpoint at the cut holds a run with a Kleene capture. -/
+def stepCut (ws : List String) (impl : String) : String :=
+  match ws with
+  | _k :: _n :: tags :: _subms :: tree =>
+    match (parseWhole tree).bind decEngine with
+    | none => "BADLINE"
+    | some c =>
+      if impl == "same" then "ok"
+      else
+        let tagList := ((tags.drop 5).toString).splitOn ","
+        if tagList.contains "kleene-self-ref" && hasKleeneRun c && impl.startsWith "diff" then
+          s!"KNOWN[C19-kleene-deferred] restored run lost its deferred Kleene predicate: {short impl}"
+        else s!"JUDGE C19 outputs after the cut differ from the uninterrupted run: {short impl}"
+  | _ => "BADLINE"
+
 structure St where
   dummy : Unit := ()
 
@@ -204,6 +230,7 @@ def step (st : St) (line : String) : St × String :=
   | "ck" :: "engine" :: ws => (st, stepCk decEngine encEngine ws impl)
   | "ck" :: "checkpoint" :: ws => (st, stepCk decCkpt encCkpt ws impl)
   | "det" :: variant :: ws => (st, stepDet variant ws impl)
+  | "cut" :: ws => (st, stepCut ws impl)
   | [] => (st, "")
   | _ => (st, "BADLINE")
 
